@@ -99,13 +99,26 @@ func WithThrottle(count int) Opts {
 
 // gcKey returns the modRefs key of the layout a ref points to.
 // The path is normalized so that different spellings of the same directory
-// ("dir", "dir/", "./dir", or the absolute path) share one entry.
+// ("dir", "dir/", "./dir", the absolute path, or a path through a symlink) share one entry.
 func gcKey(r ref.Ref) string {
 	key := filepath.Clean(r.Path)
 	if abs, err := filepath.Abs(key); err == nil {
 		key = abs
 	}
-	return key
+	// Resolve symlinks. The layout may not exist yet and the key must not change once it is created,
+	// so the longest existing parent is resolved and the remainder is appended.
+	dir, rest := key, ""
+	for {
+		if resolved, err := filepath.EvalSymlinks(dir); err == nil {
+			return filepath.Join(resolved, rest)
+		}
+		parent := filepath.Dir(dir)
+		if parent == dir {
+			return key
+		}
+		rest = filepath.Join(filepath.Base(dir), rest)
+		dir = parent
+	}
 }
 
 // GCLock is used to prevent GC on a ref
